@@ -18,4 +18,5 @@ MONITORS = {
     "C14": ["monitors.c14"],
     "C15": ["monitors.c15"],
     "C16": ["monitors.c16"],
+    "C20": ["monitors.c20"],
 }
